@@ -842,6 +842,112 @@ async fn long_drain() -> (Option<bool>, Option<f64>, Option<f64>, Option<String>
     (in_flight.map(|f| f && transfer_at.is_some()), transfer_at, returned, if in_flight == Some(true) { None } else { Some("the client was not in flight when shutdown was requested".into()) })
 }
 
+/// The wiring of the stop signal itself (src/lib.rs): the application is started the way its binary
+/// starts it (`passage::start` in a child process of this monitor) and is sent SIGINT while one
+/// connection is stalled mid-login and one status client is between Status Response and Ping.
+async fn sigint_family(cli: &Cli, report: &mut Report) {
+    let rounds = cli.scaled(if cli.tier == Tier::Thorough { 4 } else { 1 });
+    let mut all = vec![];
+    for round in 0..rounds {
+        let port = crate::tcp::free_port();
+        let addr: SocketAddr = format!("127.0.0.1:{port}").parse().expect("addr");
+        let timeout_s = 2u64;
+        let Ok(exe) = std::env::current_exe() else {
+            report.inconclusive("sigint: cannot find the monitor's own executable");
+            return;
+        };
+        let Ok(mut child) = std::process::Command::new(exe).args(["--child-start", &port.to_string(), &timeout_s.to_string()]).stdout(std::process::Stdio::null()).stderr(std::process::Stdio::null()).spawn() else {
+            report.inconclusive("sigint: cannot spawn the child process");
+            return;
+        };
+        if !crate::tcp::wait_listening(addr, Duration::from_secs(15)).await {
+            let _ = child.kill();
+            report.inconclusive("sigint: the child did not start listening within 15 s");
+            continue;
+        }
+        // in flight: a login that stalls after Login Start, and a status client that will ping late
+        let staller = TcpEnd::connect(addr, None).await.ok();
+        if let Some(s) = &staller {
+            s.send(&scripts::handshake(2, "sigint.example.org", 25565, 770).frame());
+            s.send(&Pkt::LoginStart { name: "Staller".into(), uuid: 1 }.frame());
+        }
+        let status = TcpEnd::connect(addr, None).await.ok();
+        let mut status_plan = scripts::plan(scripts::status_script("sigint.example.org", 25565, 99), true, [1u8; 16], Duration::from_secs(6));
+        // wait 700 ms between Status Response and Ping: the signal arrives in between
+        if let Some(pos) = status_plan.script.iter().position(|a| matches!(a, vp_sim::client::Act::Send { label, .. } if label == "StatusPing")) {
+            status_plan.script.insert(pos, vp_sim::client::Act::Sleep(Duration::from_millis(700)));
+        }
+        let pid = child.id();
+        let killer = tokio::spawn(async move {
+            tokio::time::sleep(Duration::from_millis(350)).await;
+            let _ = std::process::Command::new("kill").args(["-INT", &pid.to_string()]).status();
+            Instant::now()
+        });
+        let status_log = match &status {
+            Some(s) => Some(Client::new(s, status_plan).run().await),
+            None => None,
+        };
+        let signalled = killer.await.unwrap_or_else(|_| Instant::now());
+        // a newcomer well after the signal
+        tokio::time::sleep(Duration::from_millis(150).saturating_sub(signalled.elapsed())).await;
+        let late_served = match TcpEnd::connect(addr, None).await {
+            Ok(end) => {
+                let log = Client::new(&end, scripts::plan(scripts::status_script("late.example.org", 25565, 1), true, [2u8; 16], Duration::from_millis(800))).run().await;
+                end.kill();
+                !log.received.is_empty()
+            }
+            Err(_) => false,
+        };
+        // the child must exit by itself, after the stalled connection ran into its timeout
+        let t_wait = Instant::now();
+        let mut exited: Option<(Option<i32>, Duration)> = None;
+        while t_wait.elapsed() < Duration::from_secs(timeout_s) + RETURN_SLACK {
+            if let Ok(Some(st)) = child.try_wait() {
+                exited = Some((st.code(), signalled.elapsed()));
+                break;
+            }
+            tokio::time::sleep(Duration::from_millis(20)).await;
+        }
+        if exited.is_none() {
+            let _ = child.kill();
+            let _ = child.wait();
+        }
+        let pong = status_log.as_ref().map(|l| l.count("StatusPong") > 0);
+        let staller_open_ms = staller.as_ref().and_then(|s| s.closed_at()).map(|t| t.saturating_duration_since(signalled).as_millis() as i64);
+        if let Some(s) = &staller {
+            s.kill();
+        }
+        if let Some(s) = &status {
+            s.kill();
+        }
+        let detail = json!({"round": round, "timeout_s": timeout_s, "status_client_got_pong_after_signal": pong, "late_connection_served": late_served, "child_exit": exited.map(|(c, d)| json!({"code": c, "ms_after_signal": d.as_millis() as u64})), "stalled_connection_closed_ms_after_signal": staller_open_ms});
+        report.eval(Some(&format!("sigint/{round}")));
+        report.count("sigint: application processes signalled while connections were in flight", 1);
+        report.sample(json!({"case": "SIGINT to passage::start in a child process", "observed": detail}));
+        all.push(detail.clone());
+        report.set("sigint_rounds", json!(all));
+        if late_served {
+            report.violation("a-served-after-shutdown/sigint", "a connection opened 150 ms after SIGINT was served", detail.clone());
+        }
+        if pong == Some(false) {
+            report.violation("b-inflight-status-lost-pong/sigint", "a status exchange that was in progress when SIGINT arrived was not completed", detail.clone());
+        }
+        match exited {
+            None => report.violation("d-listen-not-returned-within-timeout+5s/sigint", "the application did not exit within timeout + 5 s of SIGINT", detail.clone()),
+            Some((code, after)) => {
+                if code != Some(0) {
+                    report.violation("sigint/exit-code", &format!("the application exited with {code:?} after SIGINT"), detail.clone());
+                }
+                // the stalled login was accepted ~350 ms before the signal and may run until its
+                // deadline (2 s): an exit much earlier means in-flight connections were cut off
+                if after < Duration::from_millis(900) && staller.is_some() {
+                    report.violation("c-listen-returned-before-inflight-finished/sigint", &format!("the application exited {} ms after SIGINT although a connection accepted 350 ms earlier had 2 s to live", after.as_millis()), detail.clone());
+                }
+            }
+        }
+    }
+}
+
 pub async fn run_prop(cli: &Cli) -> i32 {
     let mut report = Report::new(
         cli,
@@ -852,13 +958,14 @@ pub async fn run_prop(cli: &Cli) -> i32 {
     report.assume("a connection is judged 'arrived after shutdown' only if its connect() started ≥ 50 ms after cancel() returned; 'in flight' only if the server had sent it a byte before cancel() was called; everything in between is recorded, not judged");
     report.assume("served = any byte received; a connection the kernel establishes on the still-open listening socket and that is never answered counts as not served");
     report.assume("adapter-log instants are lower bounds (the log's clock started after the base instant taken just before the listener was created)");
-    report.assume("the ctrl-c wiring of the passage binary (src/lib.rs) is not exercised: no binary target is available to this crate; the stop token is cancelled directly");
+    report.assume("the ctrl-c wiring (src/lib.rs) is exercised by running passage::start in a child process of the monitor and sending it SIGINT; src/main.rs (telemetry set-up, Config::read) is not run");
     let long = if cli.replay.is_none() { Some(tokio::spawn(long_drain())) } else { None };
     run(cli, &mut report).await;
     if cli.replay.is_none() {
         proxy_pending_family(cli, &mut report).await;
         let late = LateLog::start(Duration::from_millis(5));
         flood_family(cli, &mut report, &late).await;
+        sigint_family(cli, &mut report).await;
     }
     if let Some(h) = long {
         match h.await {
